@@ -93,7 +93,7 @@ def case(w, frames, tags=()):
 
 def gen_mixed(rng, tier, nworlds=None, per=None, logger=None):
     """diverse single frames and short histories over many configurations"""
-    nworlds = nworlds or (40 if tier == 'quick' else 600)
+    nworlds = nworlds or (200 if tier == 'quick' else 3000)
     per = per or 50
     cases = []
     for i in range(nworlds):
@@ -143,7 +143,7 @@ def gen_c06(rng, tier):
 def gen_flows(rng, tier, nflows=4, steps=60):
     """scripted interleavings of several TCP flows with right/wrong acks, wrap-around values, noise"""
     cases = []
-    n = 30 if tier == 'quick' else 600
+    n = 120 if tier == 'quick' else 3000
     for ci in range(n):
         w = World(rng, selfmode=rng.chance(1, 2), denymode=False, key=rng.choice([(0, 0), (rng.next(), rng.next())]))
         flows = []
@@ -249,7 +249,7 @@ def hostile_frames(rng, w, n):
 
 def gen_c01(rng, tier):
     cases = []
-    per = 60 if tier == 'quick' else 1500
+    per = 120 if tier == 'quick' else 1500
     for si in range(2):
         for di in range(2):
             for lg in LOGGERS:
@@ -261,7 +261,7 @@ def gen_c01(rng, tier):
 
 def gen_c20(rng, tier):
     cases = []
-    n = 24 if tier == 'quick' else 400
+    n = 80 if tier == 'quick' else 1500
     for i in range(n):
         w = World(rng, selfmode=[True, False][i % 2], denymode=[True, False][(i // 2) % 2], logger=['console', 'logfmt'][(i // 4) % 2])
         frames = []
@@ -279,7 +279,7 @@ def gen_c20(rng, tier):
 
 def gen_c05(rng, tier):
     cases = []
-    nw = 6 if tier == 'quick' else 40
+    nw = 16 if tier == 'quick' else 200
     for wi in range(nw):
         w = World(rng, selfmode=bool(wi % 2), denymode=bool((wi // 2) % 2))
         frames = []
@@ -304,13 +304,13 @@ def gen_c05(rng, tier):
             for code in codes:
                 dst = rng.choice([None, None, None, w.other6])
                 if ty == 135:
-                    tgt = rng.choice([w.my6, w.my6, w.other6])
+                    tgt = rng.choice([w.my6, w.my6, w.my6b, w.other6])
                     rest = bytes(4) + tgt + rng.choice([b'', bytes([1, 1]) + w.cl_mac, rng.bytes(8)])
                     if rng.chance(1, 6):
                         rest = rest[:rng.below(len(rest))]
                     sn = bytes.fromhex('ff0200000000000000000001ff') + tgt[13:]
                     frames.append(eth(rng.choice([w.mac, bytes([0x33, 0x33, 0xff]) + tgt[13:]]), w.cl_mac, 0x86dd,
-                                      ipv6(w.cl6, rng.choice([sn, w.my6]), 58, icmp6(135, code, rest, w.cl6, sn))))
+                                      ipv6(w.cl6, rng.choice([sn, w.my6, w.my6b]), 58, icmp6(135, code, rest, w.cl6, sn))))
                 else:
                     ln = rng.choice([0, 1, 4, 8, 13, 56, 100, 1452, rng.below(1453)])
                     frames.append(w.f6(58, icmp6(ty, code, rng.bytes(ln), w.cl6, dst or w.my6), dst=dst))
@@ -338,7 +338,7 @@ def acase(w, ops, tags=()):
 def gen_appcases(kinds, tcp=None, v6=None, per=400, mutate_ratio=6):
     def g(rng, tier):
         cases = []
-        n = 6 if tier == 'quick' else 120
+        n = 20 if tier == 'quick' else 500
         for _ in range(n):
             w = World(rng, selfmode=False, denymode=False)
             ops = []
@@ -502,10 +502,10 @@ def case_from_json(c, name=''):
     return {'ops': [op_from_json(o) for o in c['ops']], 'tags': c.get('tags', []) + ['corpus:' + name]}
 
 
-def run_cases(cases, want_model=True):
+def run_cases(cases, want_model=True, release=False):
     """Run every case on the implementation and on the model. Fills case['impl'], case['model'] (block lists)."""
     ops = [o for c in cases for o in c['ops']]
-    ib, rc, err, partial = run_impl(ops)
+    ib, rc, err, partial = run_impl(ops, release=release)
     dead = len(ib) < len(ops)
     k = 0
     for c in cases:
@@ -614,6 +614,23 @@ def explore(prop, pd, tier, seed, replay=None):
     dead = run_cases(cases)
     violations = []
     disagreements = []
+    release_evals = 0
+    if tier == 'thorough' and pd.get('release') and os.path.exists(IMPL_BIN_REL):
+        # same cases on the release build (wrapping arithmetic): panics and judge failures count
+        import copy
+        rel = [{'ops': c['ops'], 'tags': c['tags'] + ['release-build']} for c in cases]
+        run_cases(rel, want_model=False, release=True)
+        for c in rel:
+            for i, b in enumerate(c['impl']):
+                if c['ops'][i][0] in ('F', 'A'):
+                    release_evals += 1
+                    if b['r'] and b['r'].startswith('PANIC'):
+                        violations.append({'clause': 'release build panicked: ' + b['r'], 'ops': [op_to_json(x) for x in c['ops'][:i + 1]], 'tags': c['tags'], 'panic': True})
+        if pd.get('judge'):
+            for c in rel:
+                for fi, fc in judge_case_noexec(pd, c):
+                    violations.append({'clause': fc + ' (release build)', 'ops': [op_to_json(x) for x in c['ops'][:fi + 1]], 'tags': c['tags'],
+                                       'cookie_collision': 'cookie collision' in fc, 'shadowed': fc.startswith('[shadowed]')})
     nontrivial = set()
     evaluations = 0
     byte_exact = 0
@@ -698,6 +715,14 @@ def explore(prop, pd, tier, seed, replay=None):
                     if pa != pb:
                         disagreements.append({'ops': [op_to_json(x) for x in c['ops'][:i + 1]], 'impl': a['r'][:600], 'model': b['r'][:600],
                                               'impl_table': a['t'], 'model_table': b['t']})
+    # shrink the first few violations (drop ops that are not needed for the last op to fail)
+    for v in violations[:3]:
+        if v.get('ops') and len(v['ops']) > 3 and pd.get('judge'):
+            v['ops'] = shrink_ops(pd, v['ops'], v.get('clause', ''))
+    # focused search around model/implementation disagreements: is there a judged failure nearby?
+    if disagreements and not violations and pd.get('judge'):
+        found = focused_search(pd, rng, disagreements[:4])
+        violations += found
     if verdicts and len(verdicts) != len(jmap):
         disagreements.append({'what': 'judge produced %d verdicts for %d observations: %s' % (len(verdicts), len(jmap), err[:300])})
     if dead:
@@ -711,8 +736,86 @@ def explore(prop, pd, tier, seed, replay=None):
         'byte_exact_agreement': byte_exact,
         'projection_disagreements': len(disagreements),
         'input_distribution': {'tags': tagdist, 'outcomes': outdist, 'cases': len(cases)},
+        'release_build_evaluations': release_evals,
     }
     return {'coverage': cov, 'violations': violations, 'disagreements': disagreements}
+
+
+def judge_case_noexec(pd, c):
+    from check import run_judge
+    l, idx = judge_lines(c, pd.get('judge_mode', 'frame'))
+    verdicts, rc, err = run_judge(pd['judge'], l)
+    fails = []
+    for i, v in zip(idx, verdicts):
+        parts = v.split(' ', 3)
+        if parts[1] == 'FAIL':
+            fails.append((i, parts[3] if len(parts) > 3 else ''))
+    return fails
+
+
+def judge_case(pd, c):
+    """run one case on the implementation and judge it; returns list of (op index, clause) failures"""
+    run_cases([c], want_model=False)
+    from check import run_judge
+    l, idx = judge_lines(c, pd.get('judge_mode', 'frame'))
+    verdicts, rc, err = run_judge(pd['judge'], l)
+    fails = []
+    for i, v in zip(idx, verdicts):
+        parts = v.split(' ', 3)
+        if parts[1] == 'FAIL':
+            fails.append((i, parts[3] if len(parts) > 3 else ''))
+    for i, b in enumerate(c['impl']):
+        if b['r'] and b['r'].startswith('PANIC'):
+            fails.append((i, 'implementation panicked: ' + b['r']))
+    return fails
+
+
+def shrink_ops(pd, ops_json, clause):
+    ops = [op_from_json(o) for o in ops_json]
+    head, body = ops[:2], ops[2:]
+    if len(body) > 120:
+        return ops_json
+    i = 0
+    while i < len(body) - 1:
+        trial = body[:i] + body[i + 1:]
+        c = {'ops': head + trial, 'tags': []}
+        fails = judge_case(pd, c)
+        if any(fi == len(c['ops']) - 1 and fc == clause for fi, fc in fails):
+            body = trial
+        else:
+            i += 1
+    return [op_to_json(o) for o in head + body]
+
+
+def focused_search(pd, rng, disagreements):
+    """mutate the disagreeing op (lengths +-1, boundary bytes, truncations) and judge every mutant on the implementation"""
+    out = []
+    for d in disagreements:
+        if 'ops' not in d:
+            continue
+        ops = [op_from_json(o) for o in d['ops']]
+        last = ops[-1]
+        if last[0] not in ('F', 'A'):
+            continue
+        data = last[1] if last[0] == 'F' else last[7]
+        muts = [data]
+        for _ in range(150):
+            muts.append(gen.mutate(rng, data))
+        for i in range(min(len(data), 80)):
+            for v in (0, 0xff, data[i] ^ 1, (data[i] + 1) & 0xff):
+                b = bytearray(data)
+                b[i] = v
+                muts.append(bytes(b))
+        trial_ops = ops[:-1]
+        for m in muts:
+            trial_ops.append(('F', m) if last[0] == 'F' else last[:7] + (m,))
+        c = {'ops': trial_ops, 'tags': ['focused-search']}
+        fails = judge_case(pd, c)
+        for fi, fc in fails[:1]:
+            # replay = prefix + the failing mutant alone
+            out.append({'clause': fc, 'ops': [op_to_json(x) for x in ops[:-1] + [trial_ops[fi]]], 'tags': ['focused-search'],
+                        'shadowed': fc.startswith('[shadowed]'), 'cookie_collision': 'cookie collision' in fc})
+    return out
 
 
 # ============================================================================= custom explorations (differential oracles)
